@@ -263,6 +263,10 @@ HAND = [
 ]
 # deliberate C23 readings (DESIGN.md): f() is f(void); u8"..." has element type unsigned char
 C23 = [
+    # typeof_unqual of an array expression is the array type (no decay), like typeof
+    ('c23-typeof-unqual-array', 'const short arr[7]; char g2[3][5]; struct M { typeof_unqual(arr) a; char c; typeof_unqual(g2[1]) r; typeof_unqual("abc") s; };\n'
+                                'int a = sizeof(typeof_unqual(arr)), b = sizeof(typeof_unqual(g2[1])), c = sizeof(typeof_unqual("abcd")), d = sizeof(struct M), e = sizeof(typeof(arr));\n',
+     {'a': 14, 'b': 5, 'c': 5, 'd': 24, 'e': 14}),
     ('c23-empty-params', 'int a = __builtin_types_compatible_p(int (*)(), int (*)(void)), b = __builtin_types_compatible_p(int (*)(), int (*)(int));\n', {'a': 1, 'b': 0}),
     ('c23-u8', 'int a = _Generic(u8"a", unsigned char *: 1, char *: 2, default: 0), b = _Generic(u8\'a\', unsigned char: 1, default: 0);\n', {'a': 1, 'b': 1}),
     ('c23-bool-nullptr', 'int a = _Generic(true, _Bool: 1, default: 0), b = sizeof(nullptr), c = _Generic(1 ? nullptr : (int *)0, int *: 1, default: 0);\n', {'a': 1, 'b': 8, 'c': 1}),
